@@ -191,15 +191,21 @@ class MemberBits(SymInt, metaclass=MemberBitsMeta):
                           for g, a in ((_guard(self & a), a) for a in atoms))
 
     def powerset(self, start=None, excludestart=False):
-        if start is not None or excludestart:
-            raise core.Inconclusive('unsupported: powerset(start=...)')
-        atoms = list(self.atoms())
-        yield self.fromint(0)
+        if start is None:
+            base = 0
+            atoms = list(self.atoms())
+        else:
+            if (self | start != self):
+                raise ValueError(f'{start!r} is no subset of {self!r}')
+            base = start.e if isinstance(start, SymInt) else int(start)
+            atoms = list(self.fromint(self & ~start).atoms())
+        if not excludestart:
+            yield self.fromint(base)
         for k in range(1, len(atoms) + 1):
             for combo in combinations(atoms, k):
-                v = 0
+                v = base
                 for a in combo:
-                    v |= a.e
+                    v = v | a.e
                 yield self.fromint(v)
 
     def _reinverted(self):
